@@ -684,6 +684,9 @@ func (m *monitors) recordVote(voter, term, to uint64) {
 // (C02: a suffix that was overwritten must not come back, nothing acknowledged may be missing).
 func (m *monitors) onRecoveredFromRealStore(r *replica, rs raftio.RaftState) {
 	m.count("restarts_compared_with_real_store", 1)
+	if r.store.realTan {
+		m.count("restarts_compared_with_real_tan_store", 1)
+	}
 	sh := r.store
 	if sh.hasState {
 		if rs.State.Term < sh.state.Term {
